@@ -214,6 +214,9 @@ func (e *Exec) sideOblige(st *State, what string, goal Term, pos token.Pos) {
 	if f.contract != nil && f.contract.Opts["nopanic"] == "off" {
 		return
 	}
+	if f.contract != nil && f.contract.Opts["nopanic"] == "typeassert" && what != "type-assert" {
+		return // only single-value type assertions are obligations
+	}
 	name := fmt.Sprintf("%s#nopanic:%s@%s", e.fnName, what, e.relLine(pos))
 	e.oblige(st, name, "no-panic", nil, goal, pos)
 }
